@@ -7,16 +7,23 @@ META = {
     "technique": "Lean 4 inductive invariant over all API histories of a session model + differential correspondence with the real engine",
     "level": "proof",
     "level_text": ("Theorem C02.wellformed_reachable: for every environment satisfying ComposeSpec (discharged for the concrete "
-                   "Compose port with any translation oracle by C02.wellformed_reachable_concrete) and every finite list of API ops "
+                   "Compose port with any translation oracle by C02.wellformed_reachable_concrete, and for the Compose with the punctuation "
+                   "components by C02.wellformed_reachable_punct, stated over the pair of environments of the full_shape option) and every finite list of API ops "
                    "from a fresh session, the view (input, caret, preedit, menu) is WellFormed; proved by an inductive invariant over "
                    "every context mutator, processor action (default keymaps regenerated from source) and API op. The model is run "
                    "op-for-op against the real librime on synthetic schemas (same C++ context/engine/processor code) and every "
                    "observation of the implementation is also checked against WellFormed directly."),
     "level_note": ("Trusted: Lean kernel; keymap translator; the hand-written model is tied by differential runs only (bounded by the "
-                   "generator). UTF-8 boundary clause: proved for every composition under ASCII input and character-starting candidate texts (C02.preedit_utf8_boundaries), and monitored on the implementation. Processors outside the model "
-                   "(ascii_composer, recognizer, key_binder, punctuator, chord_composer) are covered only "
+                   "generator). UTF-8 boundary clause: proved for every composition under ASCII input and character-starting candidate texts (C02.preedit_utf8_boundaries), and monitored on the implementation. "
+                   "The punctuator is inside the model: processor (Punctuator::ProcessKeyEvent, AlternatePunct, ConfirmUniquePunct, AutoCommitPunct, "
+                   "PairPunct with its per-definition oddness; options ascii_punct / full_shape, use_space), punct_segmentor, punct_translator "
+                   "(all four kinds of definition, shape labels), the full_shape formatter and post-processor; the invariant is proved for it "
+                   "(punctProcess_inv, composeP_spec -> C02.wellformed_reachable_punct / _shaped) and two synthetic schemas (vs_punct, vs_punctf) run "
+                   "it op-for-op against the engine. Not modelled there: digit separators (they read the commit history; configured off: "
+                   "`digit_separators: \"\"`), punctuator/symbols, a punctuation key that is also a letter of the alphabet. Processors outside the model "
+                   "(ascii_composer, recognizer, key_binder, chord_composer) are covered only "
                    "by the context-layer lemmas plus the WellFormed monitor on a stock-component schema (luna_pinyin's component list over "
-                   "tiny dictionaries; both tiers, no model behind those runs)."),
+                   "tiny dictionaries, digit separators at their default; both tiers, no model behind those runs)."),
     "design_ref": "DESIGN.md §2 M-session, §3 C02",
 }
 
@@ -44,8 +51,8 @@ def run(c):
     ws = sc.make_workspace(os.path.join(c.work, "ws"), list(sc.SCHEMAS))
     hs, rows_for = sc.standard_histories(c, n_hist, n_ops)
     stats = sc.session_check(c, "C02", monitor, hs, rows_for, exe, ws, "WellFormed(view)")
-    # stock components the model does not port (punctuator, ascii_composer, recognizer, key_binder, reverse lookup, real
-    # translators and filters): the property is monitored on the implementation's observations, no model behind it
+    # stock components the model does not port (ascii_composer, recognizer, key_binder, reverse lookup, real translators and
+    # filters; the punctuator with digit separators on): the property is monitored on the implementation's observations, no model behind it
     from checks import c01_common as c1
     fws = c1.make_full_workspace(os.path.join(c.work, "fws"), user_dict=False)
     n_sh, n_sops = (24, 150) if quick else (300, 300)
@@ -57,12 +64,13 @@ def run(c):
     cov = vlib.proof_cov(audit, "lake build RimeModel.Props.C02 && #print axioms (all theorems) && forbidden-token scan"
                          + ("" if quick else " && leanchecker"), vlib.STD_TRUSTED + ["translator gen/keymaps.py"])
     cov.update({"evaluations": stats["ops"], "distinct_nontrivial": stats["distinct_nontrivial"],
-                "rule": "seeded random API histories (keys over letters/editing/navigation/selection keys with modifiers, select/highlight/delete by global and on-page index incl. out of range, paging, set_input, set_caret_pos, options, commit, clear, get_commit) on 4 synthetic schemas x generated candidate tables, corpus first; non-trivial = observation in a composing state; distinct by (schema, full observation line)",
+                "rule": "seeded random API histories (keys over letters/editing/navigation/selection keys with modifiers, select/highlight/delete by global and on-page index incl. out of range, paging, set_input, set_caret_pos, options, commit, clear, get_commit; on the two schemas with a punctuator also punctuation keys pressed 1-6 times in a row alone / after letters / with the caret moved / with a menu open, followed by confirming, selecting, cancelling and editing keys, options ascii_punct and full_shape, set_input of mixed letters and punctuation) on %d synthetic schemas x generated candidate tables, corpus first; non-trivial = observation in a composing state; distinct by (schema, full observation line)" % len(sc.SCHEMAS),
                 "samples": stats["samples"], "histories": stats["histories"], "op_kind_distribution": stats["kinds"],
                 "observations_with_menu": stats["menus"], "observations_composing": stats["composing"],
                 "commits_read": stats["commits"], "model_impl_disagreements": stats["diffs"],
                 "monitor_violations": stats["violations"], "sanitizer_aborts": stats["crashes"],
-                "proof_failures": audit["failures"], "stock_component_monitoring": sst})
+                "proof_failures": audit["failures"], "stock_component_monitoring": sst,
+                "per_schema": stats["schemas"], "punctuator_schemas": stats["punct"]})
     if not quick:
         # how much of the C++ the model ports do the correspondence scripts of this run execute (gcov build; measurement, not a verdict)
         try:
